@@ -29,6 +29,7 @@ func init() {
 			{ID: "C13.R6", Floor: 5, Run: c19r1, Text: "no mutable package-level state (= C19.R1): a result must not depend on what other worlds in the process did"},
 			{ID: "C13.R7", Floor: 2, Run: typeArgPassedThrough, Text: "type registration goes through the world's registration path (= C16.R10), which extends every table's layouts: a skipped extension makes results depend on heap contents"},
 			{ID: "C13.R8", Floor: 1, Run: layoutCountFromCount, Text: "the layout count is rounded up from the registry's count (= C16.R12)"},
+			{ID: "C13.R9", Floor: 1, Run: compileKeyedByWorld, Text: "the compilation of a generic filter is keyed by world (= C18.R23): the same operations on two fresh worlds give the same results, whatever was done before"},
 			{ID: "C13.FX", Floor: 1, Run: c13fixture, Text: "fixture control: on checker/testdata/fixture the three rules report exactly the functions named bad* for them and none named ok*"},
 		},
 	})
@@ -45,6 +46,7 @@ func init() {
 			{ID: "C19.R5", Floor: 2, Run: paramSlicesNotGrown, Text: "caller-owned slices that the library appends to are copied first (= C12 rule): two objects built from one slice never write into each other"},
 			{ID: "C19.R6", Floor: 3, Run: noWritesThroughResources, Text: "resource objects are only stored and handed out: no method of Resources calls a reflect mutator or stores through a resource pointer"},
 			{ID: "C19.R7", Floor: 10, Run: callerSlicesNotMutated, Text: "caller-owned slices are only read: no exported function assigns an element of, sorts, reverses, compacts or copies into a slice parameter"},
+			{ID: "C19.R8", Floor: 1, Run: compileKeyedByWorld, Text: "the compilation of a generic filter is keyed by world (= C18.R23): using a filter on one world does not change what it selects on another"},
 			{ID: "C19.FX", Floor: 1, Run: c19fixture, Text: "fixture control: on checker/testdata/fixture R1/R2 report exactly the bad* functions for them"},
 		},
 	})
